@@ -62,8 +62,9 @@ def main():
         shutil.rmtree(scratch, ignore_errors=True)
         shutil.rmtree(out, ignore_errors=True)
         tag = hashlib.sha256(os.path.abspath(scratch).encode()).hexdigest()[:8]
-        for fl in ("plain", "asan", "tsan"):
-            shutil.rmtree(os.path.join(VERIF, ".build", "%s-%s" % (fl, tag)), ignore_errors=True)
+        import glob
+        for d in glob.glob(os.path.join(VERIF, ".build", "*-%s-*" % tag)) + glob.glob(os.path.join(VERIF, ".build", ".lock-*-%s" % tag)):
+            shutil.rmtree(d, ignore_errors=True) if os.path.isdir(d) else os.unlink(d)
 
 
 if __name__ == "__main__":
